@@ -113,10 +113,11 @@ func (k Keeper) FeefromReporterStake(ctx context.Context, reporterAddr sdk.AccAd
 					return err
 				}
 
+				// record what was actually taken from this delegation: the records must sum to the tracked total
 				feeTracker = append(feeTracker, &types.TokenOriginInfo{
 					DelegatorAddress: selectors.delAddr.Bytes(),
 					ValidatorAddress: info.valAddr.Bytes(),
-					Amount:           unbondAmt.TruncateInt(),
+					Amount:           escrowedAmt,
 				})
 				totalTrackedAmount = totalTrackedAmount.Add(escrowedAmt)
 				break
@@ -130,7 +131,7 @@ func (k Keeper) FeefromReporterStake(ctx context.Context, reporterAddr sdk.AccAd
 				feeTracker = append(feeTracker, &types.TokenOriginInfo{
 					DelegatorAddress: selectors.delAddr.Bytes(),
 					ValidatorAddress: info.valAddr.Bytes(),
-					Amount:           unbondAmt.TruncateInt(),
+					Amount:           escrowedAmt,
 				})
 				totalTrackedAmount = totalTrackedAmount.Add(escrowedAmt)
 
